@@ -345,6 +345,24 @@ M('c01-cmp-prefix', 'C01', 'src/containers/qtreetbl.c', "    return (namesize1 <
 M('c01-inplace-stale-size', 'C01', 'src/containers/qtreetbl.c', "            free(obj->data);\n            obj->data = copydata;\n            obj->datasize = datasize;", "            free(obj->data);\n            obj->data = copydata;",
   'R2', 'put_obj', 'replacement keeps the old recorded size')
 
+# ---- C08 / C09 -------------------------------------------------------------------------------
+M('c08-load-count', 'C08', 'src/containers/qlisttbl.c', "        if (qlisttbl_put(tbl, name, data, strlen(data) + 1) == true) {\n            cnt++;\n        }",
+  "        qlisttbl_put(tbl, name, data, strlen(data) + 1);", 'L1', 'qlisttbl_load', 'loaded entries not counted')
+M('c08-sort-unstable', 'C08', 'src/containers/qlisttbl.c', "            if (tbl->namecmp(obj1->name, obj2->name) > 0) {", "            if (tbl->namecmp(obj1->name, obj2->name) >= 0) {", 'L2', 'qlisttbl_sort', 'equal keys exchanged')
+M('c08-sort-size-not-swapped', 'C08', 'src/containers/qlisttbl.c', "                obj1->size = obj2->size;\n", "", 'L2', 'qlisttbl_sort', 'size not exchanged with the data pointer')
+M('c08-load-no-decode', 'C08', 'src/containers/qlisttbl.c', "        if (decode == true) qurl_decode(data);", "        if (decode == true) qhex_decode(data);", 'L3', 'qlisttbl_load', 'load uses a different codec than save')
+M('c08-unique-ignored', 'C08', 'src/containers/qlisttbl.c', "    if (tbl->unique == true) qlisttbl_remove(tbl, name);\n", "", 'L4', None, 'unique option has no effect in put')
+M('c08-inserttop-sets-unique', 'C08', 'src/containers/qlisttbl.c', "      tbl->inserttop = true;", "      tbl->unique = true;", 'L4', None, 'option wired to the wrong field')
+M('c08-direction-swapped', 'C08', 'src/containers/qlisttbl.c', "        obj = (tbl->lookupforward)? obj->next : obj->prev;", "        obj = (tbl->lookupforward)? obj->prev : obj->next;", 'L5', 'findobj', 'walks against the lookup direction')
+M('c08-inserttop-bottom', 'C08', 'src/containers/qlisttbl.c', "        if (tbl->inserttop == false) {\n            obj->prev = tbl->last;", "        if (tbl->inserttop == true) {\n            obj->prev = tbl->last;", 'L5', 'qlisttbl_put', 'insert-at-top appends at the bottom')
+M('c09-queue-lifo', 'C09', 'src/containers/qqueue.c', "    return queue->list->popfirst(queue->list, size);", "    return queue->list->poplast(queue->list, size);", 'E1', None, 'pop takes the newest element while popstr/popint take the oldest')
+M('c09-queue-pushint-front', 'C09', 'src/containers/qqueue.c', "    return queue->list->addlast(queue->list, &num, sizeof(num));", "    return queue->list->addfirst(queue->list, &num, sizeof(num));", 'E1', None, 'one push variant inserts at the other end')
+M('c09-stack-peek-bottom', 'C09', 'src/containers/qstack.c', "    return stack->list->getfirst(stack->list, size, newmem);", "    return stack->list->getlast(stack->list, size, newmem);", 'E1', None, 'peek looks at the bottom of the stack')
+M('c09-grow-prepend', 'C09', 'src/containers/qgrow.c', "    return grow->list->addlast(grow->list, str, strlen(str));", "    return grow->list->addfirst(grow->list, str, strlen(str));", 'E1', None, 'addstr prepends')
+M('c09-addlast-index', 'C09', 'src/containers/qlist.c', "    return qlist_addat(list, -1, data, size);", "    return qlist_addat(list, -2, data, size);", 'E2', 'qlist_addlast', 'addlast inserts before the last element')
+M('c09-datasum-not-updated', 'C09', 'src/containers/qlist.c', "    list->datasum -= obj->size;\n", "", 'E3', 'remove_obj', 'byte total not reduced on removal')
+M('c09-limit-ignored', 'C09', 'src/containers/qlist.c', "    if (list->max > 0 && list->num >= list->max) {", "    if (list->max > 0 && list->num > list->max + 1) {", 'E4', 'qlist_addat', 'size limit off by two')
+
 
 def run_selftest(prop, rep, rule_fn, config='cmake-release'):
     """Apply every mutant of `prop` to a scratch copy, run rule_fn(prog, report) on it, and
